@@ -27,6 +27,14 @@ OBLIGATIONS = [
      "statement": "for every history of app sends and reads, no data frame is sent after a close frame (server)"},
     {"id": "C18_W6c", "theorem": "Iora.C18.W6_server_buffer_bounded", "kind": "proved",
      "statement": "for every history and arbitrary bytes the session retains < 14 + max unparsed bytes"},
+    {"id": "C18_W3_client", "theorem": "Iora.C18.W3_client_segmentation_independent", "kind": "proved",
+     "statement": "client events are the same for any two segmentations of any valid stream"},
+    {"id": "C18_W4_client", "theorem": "Iora.C18.W4_client_reassembly", "kind": "proved",
+     "statement": "client reassembly: pongs for pings, one in-order delivery, text only if UTF-8"},
+    {"id": "C18_W5_client", "theorem": "Iora.C18.W5_client_no_data_after_close", "kind": "proved",
+     "statement": "client: for every history no data frame follows a close frame"},
+    {"id": "C18_W6c_client", "theorem": "Iora.C18.W6_client_buffer_bounded", "kind": "proved",
+     "statement": "client: retained buffer < 14 + kMaxFramePayload for every history and arbitrary bytes"},
     {"id": "C18_W6a", "theorem": "Iora.C18.W6_frame_bounds", "kind": "proved",
      "statement": "arbitrary bytes: consumed <= size, allocation <= available and <= max"},
     {"id": "C18_W6b", "theorem": "Iora.C18.W6_incomplete_short", "kind": "proved",
@@ -333,6 +341,67 @@ def gen_server_cases(ctx, rng, scale, quick):
     return cases
 
 
+
+
+def gen_client_cases(ctx, rng, scale, quick):
+    """Server->client streams through the real WebSocketClient::handleData (post-upgrade), every segmentation; app sends around."""
+    cases = []
+    for sidx in range(40 * scale):
+        frames, expect, unsure = gen_stream(rng, 16777216)
+        stream = b"".join(frames)
+        app = []
+        if rng.chance(1, 3):
+            app = [rng.choice(["cli sendText %s" % hexs(rand_utf8(rng, 3)), "cli sendBinary %s" % hexs(rng.bytes(4)),
+                               "cli sendPing %s" % hexs(rng.bytes(2)), "cli sendClose 1000 %s" % hexs(b"bye")]) for _ in range(rng.range(1, 4))]
+        for segs in segmentations(rng, stream, quick):
+            ops = ["cli reset"] + ["cli data %s" % hexs(x) for x in segs] + app
+            cases.append({"cat": "client-stream", "ops": ops, "stream_id": "c%d" % sidx, "expect_msgs": expect, "unsure": unsure,
+                          "stream_len": len(stream), "nseg": len(segs)})
+    for i in range(80 * scale):
+        frames, _, _ = gen_stream(rng, 16777216)
+        w = bytearray(b"".join(frames))
+        k = rng.below(6)
+        if k == 0:
+            w[0:0] = bytes([0x80 | rng.choice(CONTROL), rng.choice([126, 127, 254, 255])]) + rng.bytes(4)
+        elif k == 1:
+            w[0:0] = bytes([0x82, 127]) + (2 ** 64 - rng.range(1, 20)).to_bytes(8, "big")
+        elif k == 2:
+            w[0:0] = bytes([0x82, 127]) + (16777216 + rng.range(1, 3)).to_bytes(8, "big") + rng.bytes(30)
+        elif k == 3 and w:
+            for _ in range(3):
+                w[rng.below(len(w))] ^= 1 << rng.below(8)
+        elif k == 4:
+            w[0:0] = bytes([rng.choice(CONTROL), 0])
+        else:
+            w = bytearray(rng.bytes(rng.range(1, 60)))
+        w = bytes(w)
+        n = len(w)
+        cs = sorted(set(rng.below(n + 1) for _ in range(rng.range(0, 4))))
+        parts = [w[a:b] for a, b in zip([0] + cs, cs + [n])]
+        ops = ["cli reset"] + ["cli data %s" % hexs(x) for x in parts]
+        ops += ["cli data %s" % hexs(rng.bytes(200)) for _ in range(3)] + ["cli sendText %s" % hexs(b"late")]
+        cases.append({"cat": "client-robust", "ops": ops})
+    for i in range(60 * scale):
+        ops = ["cli reset"]
+        for _ in range(rng.range(2, 8)):
+            k = rng.below(7)
+            if k == 0:
+                ops.append("cli sendText %s" % hexs(rand_utf8(rng, 4)))
+            elif k == 1:
+                ops.append("cli sendBinary %s" % hexs(rng.bytes(3)))
+            elif k == 2:
+                ops.append("cli sendClose %d %s" % (rng.choice([1000, 1001]), hexs(b"x")))
+            elif k == 3:
+                ops.append("cli data %s" % hexs(ws_ser(True, 8, False, b"", (1000).to_bytes(2, "big"))))
+            elif k == 4:
+                ops.append("cli data %s" % hexs(ws_ser(True, 1, False, b"", b"hi")))
+            elif k == 5:
+                ops.append("cli sendPing %s" % hexs(rng.bytes(2)))
+            else:
+                ops.append("cli data %s" % hexs(ws_ser(True, 9, False, b"", b"p")))
+        cases.append({"cat": "client-close-race", "ops": ops})
+    return cases
+
 # ------------------------------------------------------------------ property monitors (implementation output only)
 def events_of(lines):
     evs = []
@@ -346,8 +415,12 @@ def events_of(lines):
 
 
 def sent_opcode(ev):
-    if ev.startswith("S:") and len(ev) >= 4:
-        return int(ev[2:4], 16) & 15
+    if ev.startswith("S:"):
+        parts = ev.split(":")
+        if len(parts) == 4:            # client form S:<op>:<fin>:<payload>
+            return int(parts[1]) if parts[1].isdigit() else -1
+        if len(ev) >= 4:
+            return int(ev[2:4], 16) & 15
     return None
 
 
@@ -375,7 +448,7 @@ def monitor_case(c, impl):
             elif t and t[0] not in ("incomplete", "protocolError", "tooLarge"):
                 if not (l.startswith("throw") or l.startswith("crash:")):
                     bad.append("W6: unexpected parse outcome %s" % l[:60])
-    if cat.startswith("server"):
+    if cat.startswith("server") or cat.startswith("client"):
         evs = events_of(impl)
         seen_close = False
         for e in evs:
@@ -384,12 +457,32 @@ def monitor_case(c, impl):
                 seen_close = True
             elif so in DATA and seen_close:
                 bad.append("W5: data frame sent after a close frame: %s" % e[:40])
+        for e in evs:
+            if e.startswith("S:undecodable"):
+                bad.append("W1: the client sent bytes that do not parse as one masked frame: %s" % e[:60])
         mf = c.get("maxframe", 16777216)
         for l in impl:
             if "buf=" in l:
                 b = int(l.split("buf=")[1].split()[0])
                 if b > mf + 13:
                     bad.append("W6: retained buffer %d exceeds maxFrameSize+13 (%d)" % (b, mf + 13))
+    if cat == "client-stream" and not c.get("unsure"):
+        evs = events_of(impl)
+        got = []
+        for e in evs:
+            if e.startswith("T:"):
+                got.append(("T", unhex(e[2:])))
+            elif e.startswith("B:"):
+                got.append(("B", unhex(e[2:])))
+            elif e.startswith("S:"):
+                pr = e.split(":")
+                if len(pr) == 4 and pr[1] == "10":
+                    got.append(("PONG", unhex(pr[3])))
+                elif len(pr) == 4 and pr[1] == "8" and unhex(pr[3])[:2] == (1007).to_bytes(2, "big"):
+                    got.append(("CLOSE1007",))
+        want = [e for e in c["expect_msgs"] if e[0] in ("T", "B", "PONG", "CLOSE1007")]
+        if got != want:
+            bad.append("W3/W4: client delivered messages differ from the messages encoded: got %s want %s" % (str(got)[:200], str(want)[:200]))
     if cat == "server-stream" and not c.get("unsure"):
         evs = events_of(impl)
         got = []
@@ -420,14 +513,15 @@ def run(ctx: Ctx):
     if ok_build:
         ctx.audit(MODULES, OBLIGATIONS)
         if not quick:
-            ctx.leanchecker(MODULES + ["IoraModel.Lemmas.WsFrame", "IoraModel.Lemmas.WsServer", "IoraModel.Lemmas.WsStream", "IoraModel.Lemmas.Utf8", "IoraModel.Model.WsFrame", "IoraModel.Model.WsServer", "IoraModel.Common.Framing"])
+            ctx.leanchecker(MODULES + ["IoraModel.Lemmas.WsFrame", "IoraModel.Lemmas.WsServer", "IoraModel.Lemmas.WsStream", "IoraModel.Lemmas.WsClient", "IoraModel.Model.WsClient", "IoraModel.Lemmas.Utf8", "IoraModel.Model.WsFrame", "IoraModel.Model.WsServer", "IoraModel.Common.Framing"])
     else:
         ctx.cov["obligations"] = len(OBLIGATIONS)
     hb = ctx.build_harness("harness/c18_ws.cpp", sanitize=True)
     dist = {}
     if hb and os.path.exists(ctx.model_bin()):
         corpus = load_corpus()
-        cases = corpus + gen_codec_cases(ctx, rng.fork("codec"), scale) + gen_server_cases(ctx, rng.fork("srv"), scale, quick)
+        cases = corpus + gen_codec_cases(ctx, rng.fork("codec"), scale) + gen_server_cases(ctx, rng.fork("srv"), scale, quick) + \
+            gen_client_cases(ctx, rng.fork("cli"), scale, quick)
         res = ctx.lockstep("ws", hb, cases)
         by_stream = {}
         n_mismatch = 0
@@ -438,7 +532,7 @@ def run(ctx: Ctx):
                 ctx.sample({"cat": c["cat"], "ops": [o[:160] for o in c["ops"][:6]], "impl": [l[:160] for l in impl[:6]]})
             fails = monitor_case(c, impl)
             mism = [(i, a, b) for i, (a, b) in enumerate(zip(impl, model)) if a != b]
-            if c["cat"] == "server-stream":
+            if c["cat"] in ("server-stream", "client-stream"):
                 by_stream.setdefault(c["stream_id"], []).append((c, impl))
             if fails:
                 report_property(ctx, hb, c, impl, model, fails)
@@ -464,7 +558,7 @@ def run(ctx: Ctx):
         ctx.extra["segmentations_compared"] = nseg
     ctx.extra["input_distribution"] = dist
     ctx.extra["repo_tree_sha"] = ctx.repo_tree_sha(ANCHOR_FILES)
-    ctx.extra["not_proved"] = ["client-side reassembly and close handshake (websocket_client.hpp) are not yet modelled; the client shares the frame codec and UTF-8 validator theorems",
+    ctx.extra["not_proved"] = ["client: the HTTP upgrade handshake part of handleData (before _upgradeComplete) is not modelled; post-upgrade data path is",
                                "W5 under true concurrency: the theorem is over sequences of the _wsMutex critical sections (sendClose sets the flag inside and sends outside the lock; modelled as one step, see assumptions)"]
     ctx.assumptions += ["single I/O thread per session (the server's per-session state is only touched under _wsMutex; concurrent interleavings of application sends are modelled as sequences of the locked sections)",
                         "the fake engine records bytes handed to Transport::sendAsync; delivery of those bytes is C01"]
